@@ -88,6 +88,11 @@ def build(world, base):
         if t.startswith("@S/"):
             t = os.path.join(sentinel, t[3:])
         os.symlink(t, p)
+    for l in world.get("hardlinks") or []:
+        # a second name for the same inode
+        p = os.path.join(root, l["path"])
+        os.makedirs(os.path.dirname(p), exist_ok=True)
+        os.link(os.path.join(root, l["target"]), p)
     for l in world.get("sentinel_links") or []:
         # a symlink outside the project that points into it (a second way to spell the root)
         p = os.path.join(sentinel, l["path"])
